@@ -23,6 +23,7 @@ type Case struct {
 	UDP          bool            `json:"udp,omitempty"`
 	ServerWrites bool            `json:"serverWrites,omitempty"` // the closing writer is the server application
 	NoWait       bool            `json:"noWait,omitempty"`
+	RawClient    bool            `json:"rawClient,omitempty"` // the client application sits on the session layer and never reads unless the case makes it (see e2e.Config.RawClient)
 	Writes       []int           `json:"writes"`
 	CloseDelayMs int             `json:"closeDelayMs,omitempty"`
 	ReaderLagMs  int             `json:"readerLagMs,omitempty"` // reader starts this late (back-pressure, closer's 1 s grace)
@@ -53,6 +54,9 @@ func genCase(t *rapid.T) Case {
 	c.UDP = rapid.Bool().Draw(t, "udp")
 	c.ServerWrites = rapid.Bool().Draw(t, "serverWrites")
 	c.NoWait = rapid.IntRange(0, 3).Draw(t, "noWait") == 0
+	if rapid.IntRange(0, 2).Draw(t, "rawClient") == 0 {
+		c.RawClient, c.NoWait = true, true
+	}
 	n := rapid.IntRange(1, 4).Draw(t, "nWrites")
 	tot := 0
 	for i := 0; i < n; i++ {
@@ -129,7 +133,7 @@ func total(ws []int) int64 {
 }
 
 func prop(c Case) (o pbt.Outcome) {
-	cfg := e2e.Config{UDP: c.UDP, NoWait: c.NoWait, ClientPattern: c.ClientPat, ServerPattern: c.ServerPat, ClientMTU: c.MTU, ServerMTU: c.MTU}
+	cfg := e2e.Config{UDP: c.UDP, NoWait: c.NoWait, RawClient: c.RawClient, ClientPattern: c.ClientPat, ServerPattern: c.ServerPat, ClientMTU: c.MTU, ServerMTU: c.MTU}
 	sn := simnet.NewStreamNet(simnet.StreamOpts{ChunksC2S: c.Chunks, ChunksS2C: c.Chunks, BufC2S: c.Buf, BufS2C: c.Buf})
 	pn := simnet.NewPacketNet()
 	W := total(c.Writes)
@@ -420,6 +424,7 @@ func prop(c Case) (o pbt.Outcome) {
 	mu.Unlock()
 	o.Obs = map[string]any{"written": written, "read": r.n, "readerErr": fmt.Sprint(r.err), "closeTookMs": closeTook.Milliseconds(), "closeRequestLeftAfterMs": grace.Milliseconds(), "wire": notes}
 	o.Label("latency=%v", c.LatencyMs > 0)
+	o.Label("rawClient=%v", c.RawClient)
 	o.Label("udp=%v", c.UDP)
 	o.Label("serverWrites=%v", c.ServerWrites)
 	o.Label("faultOnData=%v", fOnData)
